@@ -20,7 +20,7 @@ pub fn def() -> CheckDef {
     CheckDef {
         id: "C16",
         info,
-        shards: |_| 1,
+        shards: |_| super::cores(),
         run,
         replay,
     }
@@ -42,7 +42,7 @@ fn info(tier: Tier) -> CheckInfo {
         id: "C16",
         level: "exploration",
         rule: format!(
-            "All streams of length 0..={} over the 8-item alphabet seq in {{1,2,3,7}} x value in {{a,b}} (every permutation of every multiset: gaps, duplicates, ties), each fed through a real Dht handle's channel to both Dht::get_mutable_most_recent (sync, on a caller thread) and AsyncDht::get_mutable_most_recent (polled by the harness). Plus, on a real node over the simulated network (E1): every assignment of one of {{nothing, (1,a), (2,a), (2,b), (3,a)}} to each of 3 replicas in every arrival order of their answers, through the real lookup and AsyncDht::get_mutable_most_recent. Distinct = distinct (flavour, stream) / (assignment, order); every case is non-trivial except the empty ones.",
+            "All streams of length 0..={} over the 8-item alphabet seq in {{1,2,3,7}} x value in {{a,b}} (every permutation of every multiset: gaps, duplicates, ties), each fed through a real Dht handle's channel to both Dht::get_mutable_most_recent (sync, on a caller thread) and AsyncDht::get_mutable_most_recent (polled by the harness). Plus, on a real node over the simulated network (E1): every assignment of one of {{nothing, (1,a), (2,a), (2,b), (3,a)}} to each of 3 replicas in every arrival order of their answers, through the real lookup and AsyncDht::get_mutable_most_recent - alone, and joining the still-active lookup of the node's own put_mutable of an older item (seq 0) after one / two of the replicas have already answered it (the own item counts as seen). Distinct = distinct (flavour, stream) / (assignment, order); every case is non-trivial except the empty ones.",
             max_len(tier)
         ),
         assumptions: vec![
@@ -197,7 +197,10 @@ fn nth_stream(mut n: usize, len: usize) -> Vec<usize> {
 /// every assignment of a version (or nothing) to every replica in every arrival order.
 const VERSIONS: [Option<(i64, &[u8])>; 5] = [None, Some((1, b"a")), Some((2, b"a")), Some((2, b"b")), Some((3, b"a"))];
 
-fn live(assign: &[usize; 3], order: usize, out: &mut Partial) {
+/// mode 0: plain; 1 / 2: the node's own put_mutable of an OLDER item (seq 0) for the same key
+/// is in flight and one / two of the three replicas have already answered its lookup when the
+/// call is made, so the call joins that still-active lookup.
+fn live(assign: &[usize; 3], order: usize, mode: usize, out: &mut Partial) {
     use crate::epnet::EpNet;
     use crate::explore::Chooser;
     use crate::sim::*;
@@ -231,6 +234,49 @@ fn live(assign: &[usize; 3], order: usize, out: &mut Partial) {
         }
         o
     };
+    let pump = |w: &mut World, net: &mut EpNet, ev: &Event, rank: &[usize]| {
+        if let Event::EndpointRecv { ep, dgram } = ev {
+            let i = net.index_of(*ep).expect("ep");
+            if let Some(q) = crate::krpc::Krpc::parse(&dgram.bytes) {
+                if q.is_query() {
+                    if let Some(bytes) = net.honest_reply(i, &q, dgram.from, w.now) {
+                        let from = net.eps[i].addr;
+                        w.send_raw_with_latency(from, dgram.from, bytes, (10 + 40 * rank[i] as u64) * MS);
+                    }
+                }
+            }
+        }
+    };
+    if mode > 0 {
+        for e in net.eps.iter_mut() {
+            e.store_puts = false;
+        }
+        let own = dht::MutableItem::new(&sk, b"mine (older)", 0, None);
+        let _ = w.call_put_mutable(a, own, None);
+        // until `mode` of the three replicas' answers to the put's lookup have reached the node
+        let mut arrived = 0;
+        let a_addr = w.node_addr(a);
+        let h = w.now + 5 * SEC;
+        w.run_until(h, |w, ev| {
+            pump(w, &mut net, ev, &rank);
+            if let Event::Arrived { node, id } = ev {
+                if *node == a {
+                    let is_get_reply = w.sent().any(|(d, _)| d.id == *id && d.to == a_addr && crate::krpc::Krpc::parse(&d.bytes).map(|k| k.is_response() && k.res_bytes("token").is_some()).unwrap_or(false));
+                    if is_get_reply {
+                        arrived += 1;
+                    }
+                }
+            }
+            arrived >= mode
+        });
+        // let the actor handle that datagram before the call is queued (a queued call is
+        // served before the socket is read)
+        let h = w.now + MS;
+        w.run_until(h, |w, ev| {
+            pump(w, &mut net, ev, &rank);
+            false
+        });
+    }
     let call = w.call_get_mutable_most_recent(a, pk, None);
     let h = w.now + 30 * SEC;
     w.run_until(h, |w, ev| {
@@ -250,12 +296,16 @@ fn live(assign: &[usize; 3], order: usize, out: &mut Partial) {
     out.add("evaluations", 1);
     out.add("distinct_nontrivial", 1);
     out.add("live_lookups", 1);
-    let held: Vec<(i64, Vec<u8>)> = assign.iter().filter_map(|a| VERSIONS[*a].map(|(s, v)| (s, v.to_vec()))).collect();
+    let mut held: Vec<(i64, Vec<u8>)> = assign.iter().filter_map(|a| VERSIONS[*a].map(|(s, v)| (s, v.to_vec()))).collect();
+    if mode > 0 {
+        // the node's own in-flight item is an item it has seen
+        held.push((0, b"mine (older)".to_vec()));
+    }
     let want = held.iter().map(|h| h.0).max().map(|m| (m, held.iter().filter(|h| h.0 == m).map(|h| h.1.clone()).max().expect("max")));
     let got = match w.result(call) {
         Some(CallResult::Mutable(r)) => r.as_ref().map(|i| (i.seq(), i.value().to_vec())),
         other => {
-            out.violation("most-recent/live/no-result", format!("{other:?}"), json!({"part": "live", "assign": assign, "order": order}));
+            out.violation("most-recent/live/no-result", format!("{other:?}"), json!({"part": "live", "assign": assign, "order": order, "mode": mode}));
             return;
         }
     };
@@ -270,17 +320,18 @@ fn live(assign: &[usize; 3], order: usize, out: &mut Partial) {
             _ => "some-for-nothing",
         };
         out.violation(
-            format!("most-recent/live/{class}"),
+            format!("most-recent/live/{class}{}", ["", "/own-put-in-flight", "/own-put-in-flight"][mode]),
             format!("replicas hold {held:?} (arrival order #{order}); get_mutable_most_recent returned {got:?}, expected {want:?}"),
-            json!({"part": "live", "assign": assign, "order": order}),
+            json!({"part": "live", "assign": assign, "order": order, "mode": mode}),
         );
     }
 }
 
-fn run(tier: Tier, _s: usize, _n: usize, _seed: u64) -> Partial {
-    let chunks = super::cores();
+fn run(tier: Tier, shard: usize, nshards: usize, _seed: u64) -> Partial {
     let ml = max_len(tier);
-    let mut merged = par_local(chunks, |chunk, chunks| {
+    // one worker process per core: each takes its slice of the streams and of the live lookups
+    let mut merged = par_local(1, |_, _| {
+        let (chunk, chunks) = (shard, nshards);
         let mut out = Partial::default();
         let items = items();
         let key = *items[0].key();
@@ -311,10 +362,16 @@ fn run(tier: Tier, _s: usize, _n: usize, _seed: u64) -> Partial {
         out
     });
     // E1 part (real node, real lookup): 5^3 assignments x 6 arrival orders, on this thread
+    let mut unit = 0usize;
     for c in 0..125usize {
         let assign = [c % 5, (c / 5) % 5, (c / 25) % 5];
         for order in 0..6 {
-            live(&assign, order, &mut merged);
+            for mode in 0..3 {
+                unit += 1;
+                if unit % nshards == shard {
+                    live(&assign, order, mode, &mut merged);
+                }
+            }
         }
     }
     merged.sample(json!({"flavour":"async","stream":["1a","2b","2a"],"expected":"seq 2 value b"}));
@@ -326,6 +383,15 @@ fn run(tier: Tier, _s: usize, _n: usize, _seed: u64) -> Partial {
 
 fn replay(v: &Value) -> Result<Option<Violation>, String> {
     crate::sim::install_env();
+    let mut out = Partial::default();
+    if v.get("part").and_then(|p| p.as_str()) == Some("live") {
+        let a: Vec<usize> = v.get("assign").and_then(|a| a.as_array()).ok_or("assign")?.iter().filter_map(|x| x.as_u64().map(|x| x as usize)).collect();
+        if a.len() != 3 {
+            return Err("assign".into());
+        }
+        live(&[a[0], a[1], a[2]], v.get("order").and_then(|o| o.as_u64()).unwrap_or(0) as usize, v.get("mode").and_then(|o| o.as_u64()).unwrap_or(0) as usize, &mut out);
+        return Ok(out.violations.into_iter().next());
+    }
     crate::sim::enter_local(crate::sim::T0, 1);
     let stream: Vec<usize> = v
         .get("stream")
@@ -336,15 +402,6 @@ fn replay(v: &Value) -> Result<Option<Violation>, String> {
         .collect();
     let items = items();
     let key = *items[0].key();
-    let mut out = Partial::default();
-    if v.get("part").and_then(|p| p.as_str()) == Some("live") {
-        let a: Vec<usize> = v.get("assign").and_then(|a| a.as_array()).ok_or("assign")?.iter().filter_map(|x| x.as_u64().map(|x| x as usize)).collect();
-        if a.len() != 3 {
-            return Err("assign".into());
-        }
-        live(&[a[0], a[1], a[2]], v.get("order").and_then(|o| o.as_u64()).unwrap_or(0) as usize, &mut out);
-        return Ok(out.violations.into_iter().next());
-    }
     match v.get("flavour").and_then(|f| f.as_str()) {
         Some("async") => {
             let got = run_async(&stream, &items, &key)?;
